@@ -221,18 +221,65 @@ theorem all_specs_exact : ∀ p ∈ specs, ∀ n size : Nat, 1 ≤ size → Exac
   · exact partition_exact_ModifyFloat2
   · exact partition_exact_ModifyFloat1
 
-/-- pool-size guards as extracted: every method panics exactly for `size < 1` and delegates to its sequential
-    counterpart exactly for `size = 1` -/
-theorem guards (size : Int) :
-    (ScanPrimitivesParallelWithPoolSize.panics size ↔ size < 1) ∧ (ScanPrimitivesParallelWithPoolSize.delegates size ↔ size = 1) ∧
-    (ScanFloat3AttributeParallelWithPoolSize.panics size ↔ size < 1) ∧ (ScanFloat3AttributeParallelWithPoolSize.delegates size ↔ size = 1) ∧
-    (ScanFloat2AttributeParallelWithPoolSize.panics size ↔ size < 1) ∧ (ScanFloat2AttributeParallelWithPoolSize.delegates size ↔ size = 1) ∧
-    (ScanFloat1AttributeParallelWithPoolSize.panics size ↔ size < 1) ∧ (ScanFloat1AttributeParallelWithPoolSize.delegates size ↔ size = 1) ∧
-    (ModifyFloat3AttributeParallelWithPoolSize.panics size ↔ size < 1) ∧ (ModifyFloat3AttributeParallelWithPoolSize.delegates size ↔ size = 1) ∧
-    (ModifyFloat2AttributeParallelWithPoolSize.panics size ↔ size < 1) ∧ (ModifyFloat2AttributeParallelWithPoolSize.delegates size ↔ size = 1) ∧
-    (ModifyFloat1AttributeParallelWithPoolSize.panics size ↔ size < 1) ∧ (ModifyFloat1AttributeParallelWithPoolSize.delegates size ↔ size = 1) := by
-  refine ⟨?_, ?_, ?_, ?_, ?_, ?_, ?_, ?_, ?_, ?_, ?_, ?_, ?_, ?_⟩ <;> exact Iff.rfl
+/-- **control_flow** — the branch every method takes, from the guards in the order they occur in the source: it panics iff
+    `size < 1`, it returns the sequential counterpart's result iff `size = 1`, and it enters the worker loop iff `size ≥ 2`.
+    (Swapping the guards, weakening `size == 1` to `size <= 1`, or dropping the delegation changes `path` and breaks this.)
+    Together with `partition_exact_*` (all `size ≥ 1`): for `size ≥ 2` the workers visit exactly `0..n-1`, for `size = 1` the
+    sequential code itself runs. -/
+theorem control_flow : ∀ p ∈ paths, ∀ size : Int,
+    (p.2 size = Path.panic ↔ size < 1) ∧ (p.2 size = Path.sequential ↔ size = 1) ∧ (p.2 size = Path.workers ↔ 2 ≤ size) := by
+  intro p hp size
+  simp only [paths, List.mem_cons, List.not_mem_nil, or_false] at hp
+  rcases hp with rfl | rfl | rfl | rfl | rfl | rfl | rfl <;>
+  · simp only [ScanPrimitivesParallelWithPoolSize.path, ScanPrimitivesParallelWithPoolSize.panics, ScanPrimitivesParallelWithPoolSize.delegates,
+      ScanFloat3AttributeParallelWithPoolSize.path, ScanFloat3AttributeParallelWithPoolSize.panics, ScanFloat3AttributeParallelWithPoolSize.delegates,
+      ScanFloat2AttributeParallelWithPoolSize.path, ScanFloat2AttributeParallelWithPoolSize.panics, ScanFloat2AttributeParallelWithPoolSize.delegates,
+      ScanFloat1AttributeParallelWithPoolSize.path, ScanFloat1AttributeParallelWithPoolSize.panics, ScanFloat1AttributeParallelWithPoolSize.delegates,
+      ModifyFloat3AttributeParallelWithPoolSize.path, ModifyFloat3AttributeParallelWithPoolSize.panics, ModifyFloat3AttributeParallelWithPoolSize.delegates,
+      ModifyFloat2AttributeParallelWithPoolSize.path, ModifyFloat2AttributeParallelWithPoolSize.panics, ModifyFloat2AttributeParallelWithPoolSize.delegates,
+      ModifyFloat1AttributeParallelWithPoolSize.path, ModifyFloat1AttributeParallelWithPoolSize.panics, ModifyFloat1AttributeParallelWithPoolSize.delegates]
+    by_cases h1 : size < 1
+    · simp [h1]; omega
+    · by_cases h2 : size = 1
+      · simp [h2]
+      · simp [h1, h2]; omega
 
+/-- the worker loop, when entered, starts `size ≥ 2` workers (the loop count of every spec is the pool size) -/
+theorem workers_count : ∀ p ∈ specs, ∀ n size : Int, p.2.workers n size = size := by
+  intro p hp n size
+  simp only [specs, List.mem_cons, List.not_mem_nil, or_false] at hp
+  rcases hp with rfl | rfl | rfl | rfl | rfl | rfl | rfl | rfl | rfl <;> rfl
+
+/-- **primitiveCount_nonneg** — the element count of the primitive scans is `Mesh.PrimitiveCount()`; as regenerated from the
+    source it is never negative, for every index count and every topology (before /repo commit 9e6522a the two line topologies
+    gave `len - 1 = -1` for an empty index buffer — the one real defect of this property — and this theorem was false) -/
+theorem primitiveCount_nonneg (len : Nat) :
+    0 ≤ PrimitiveCount.count_TriangleTopology len ∧ 0 ≤ PrimitiveCount.count_PointTopology len ∧
+    0 ≤ PrimitiveCount.count_LineStripTopology len ∧ 0 ≤ PrimitiveCount.count_LineTopology len ∧
+    0 ≤ PrimitiveCount.count_LineLoopTopology len ∧ 0 ≤ PrimitiveCount.count_QuadTopology len := by
+  simp only [PrimitiveCount.count_TriangleTopology, PrimitiveCount.count_PointTopology, PrimitiveCount.count_LineStripTopology,
+    PrimitiveCount.count_LineTopology, PrimitiveCount.count_LineLoopTopology, PrimitiveCount.count_QuadTopology]
+  have h3 : Int.tdiv (len : Int) 3 = ((len / 3 : Nat) : Int) := natdiv_tdiv len 3
+  have h4 : Int.tdiv (len : Int) 4 = ((len / 4 : Nat) : Int) := natdiv_tdiv len 4
+  rw [h3, h4]
+  refine ⟨by omega, by omega, ?_, ?_, by omega, by omega⟩ <;> (split <;> omega)
+
+/-- the primitive scan on a mesh with ANY number of indices (`len`), ANY pool size ≥ 1: the workers visit exactly
+    `0 .. PrimitiveCount()-1`, where the count is the regenerated expression (not an assumed natural number) -/
+theorem scan_primitives_exact_any_mesh (len size : Nat) (h : 1 ≤ size) :
+    (∃ n : Nat, PrimitiveCount.count_TriangleTopology len = n ∧ Exact ScanPrimitivesParallelWithPoolSize.spec_TriangleTopology n size) ∧
+    (∃ n : Nat, PrimitiveCount.count_PointTopology len = n ∧ Exact ScanPrimitivesParallelWithPoolSize.spec_PointTopology n size) ∧
+    (∃ n : Nat, PrimitiveCount.count_LineStripTopology len = n ∧ Exact ScanPrimitivesParallelWithPoolSize.spec_LineStripTopology n size) := by
+  have hn := primitiveCount_nonneg len
+  refine ⟨⟨(PrimitiveCount.count_TriangleTopology len).toNat, by omega, partition_exact_ScanPrimitives_Triangle _ size h⟩,
+          ⟨(PrimitiveCount.count_PointTopology len).toNat, by omega, partition_exact_ScanPrimitives_Point _ size h⟩,
+          ⟨(PrimitiveCount.count_LineStripTopology len).toNat, by omega, partition_exact_ScanPrimitives_LineStrip _ size h⟩⟩
+
+/-- corpus witness as a closed term: were the count `-1` (the old empty line strip), the workers of the regenerated partition
+    with pool size 4 would call back with `-3, -2` although the sequential scan calls back zero times -/
+theorem emptystrip_witness :
+    (ScanPrimitivesParallelWithPoolSize.spec_LineStripTopology.visits (-1) 4).flatten = [-3, -2] ∧
+    intRange (ScanPrimitives.lo_LineStripTopology (-1)) (ScanPrimitives.hi_LineStripTopology (-1)) = [] := by decide
 
 /-! ## Part 2 — every schedule
 
@@ -249,6 +296,11 @@ theorem interleaving_irrelevant {α : Type} (logs : List (List (Int × α))) (hd
 example : Interleaving [[((0 : Int), 'a'), (1, 'b')], [(2, 'c')]] [(0, 'a'), (2, 'c'), (1, 'b')] :=
   .step 0 _ [(1, 'b')] rfl (.step 1 _ [] rfl (.step 0 _ [] rfl (.done (by simp))))
 example : run (fun _ => 'z') [((0 : Int), 'a'), (2, 'c'), (1, 'b')] 1 = 'b' := by decide
+/-- a full instance: the hypothesis `hd` holds for these two logs, the schedule above is one of their interleavings, and the
+    theorem gives the memory of "worker 0, then worker 1" -/
+example : run (fun _ => 'z') [((0 : Int), 'a'), (2, 'c'), (1, 'b')] = run (fun _ => 'z') [((0 : Int), 'a'), (1, 'b'), (2, 'c')] :=
+  interleaving_irrelevant [[((0 : Int), 'a'), (1, 'b')], [(2, 'c')]] (by decide) _ _
+    (.step 0 _ [(1, 'b')] rfl (.step 1 _ [] rfl (.step 0 _ [] rfl (.done (by simp)))))
 
 /-- any two schedules of the same disjoint logs agree -/
 theorem interleaving_irrelevant_pair {α : Type} (logs : List (List (Int × α))) (hd : (logs.flatten.map Prod.fst).Nodup)
@@ -396,8 +448,8 @@ theorem blocks_disjoint_AddFieldParallel2 :
 example : Canvas.AddField.startX (-2) (-137) 212 = -137 ∧ Canvas.AddField.endX (-2) (-137) 212 = -100 ∧
     Canvas.AddField.startX 2 (-137) 212 = 200 ∧ Canvas.AddField.endX 2 (-137) 212 = 212 := by decide
 
-/-- `chunkSectionsInRange` enumerates, per axis, exactly the blocks `chunkOf lo … chunkOf hi` -/
-theorem chunks_enumerated (lo hi : Int) (h : lo ≤ hi) :
+/-- `chunkSectionsInRange` enumerates, per axis, exactly the blocks `chunkOf lo … chunkOf hi` (none when `hi < lo`) -/
+theorem chunks_enumerated (lo hi : Int) :
     (intRange 0 (Canvas.chunkCountX lo hi)).map (Canvas.chunkAtX lo hi) = intRange lo (hi + 1) ∧
     (intRange 0 (Canvas.chunkCountY lo hi)).map (Canvas.chunkAtY lo hi) = intRange lo (hi + 1) ∧
     (intRange 0 (Canvas.chunkCountZ lo hi)).map (Canvas.chunkAtZ lo hi) = intRange lo (hi + 1) := by
